@@ -129,6 +129,12 @@ def _job(job) -> List[Dict[str, Any]]:
     if typed_sink is not None:
         # report at the type tests that separate int/float/bool on raw values
         tests = [ev for ev in I.events if ev.kind == "isinstance" and ev.data.get("separates")]
+        if not tests:
+            # the type was obtained with type(x) / x.__class__ and tested some other way
+            m, fn, ln = where(typed_sink)
+            out.append(dict(rule="R3.1", verdict="VIOLATED", module=m, function=fn, construct=norm_text(typed_sink.node, 110), line=ln,
+                            message="the exact type (type(x) / __class__) of a raw rank/score value decides what reaches the stored ratings: bool, int and float encodings of the same "
+                                    "value are treated differently (True vs 1 vs 1.0)", detail={"case": case}))
         for ev in tests:
             m, fn, ln = where(ev)
             out.append(dict(rule="R3.1", verdict="VIOLATED", module=m, function=fn, construct=norm_text(ev.node, 110), line=ln,
@@ -157,6 +163,15 @@ def _job(job) -> List[Dict[str, Any]]:
                     msg = (f"the sort key at position j is not exactly {'ranks[j]' if sel == 'ranks' else '-scores[j]'} over the whole list "
                            f"(key term {kv.sym}, reverse={info['reverse']}, flags={sorted(info['src'].flags)})")
                 out.append(dict(rule="R3.2", verdict="HOLDS" if ok else "VIOLATED", module=m, function=fn, construct=f"{sel}: {norm_text(ev.node, 90)}", line=ln, message=msg, detail={"case": case}))
+        # R3.4 a key-less sort of (value, something) tuples breaks ties by the second component: equal values are not ties any more
+        for ev in sorts:
+            info = ev.data["info"]
+            el = info["src"].elem
+            if not info["key_given"] and isinstance(el, TupleV) and len(el.items) > 1 and isinstance(el.items[0], Num) and RAW in el.items[0].prov and info["inverse_of"] is None:
+                m, fn, ln = where(ev)
+                out.append(dict(rule="R3.4", verdict="VIOLATED", module=m, function=fn, construct=f"{sel}: {norm_text(ev.node, 90)}", line=ln,
+                                message="tuples (raw value, other component) are sorted without a key: equal rank/score values are ordered by the other component and receive distinct places — "
+                                        "teams with equal values are no longer tied", detail={"case": case}))
         if not keyed:
             out.append(dict(rule="R3.2", verdict="VIOLATED", module=mod, function=entry, construct=f"{sel}: no sort keyed by the given values", line=line,
                             message=f"with {sel} given, nothing is ordered by the supplied values", detail={"case": case}))
